@@ -283,6 +283,19 @@ class ImplRun:
             if isinstance(p, list):
                 p.append("mutated")
             elif isinstance(p, Struct):
+                # also what hangs below the struct: the value lists of its arrays and its nested
+                # structs (what was delivered is a copy all the way down, or this leaks)
+                def damage(st):
+                    for v in list(st.attributes.values()):
+                        if isinstance(v, Array):
+                            for x in v.values:
+                                if isinstance(x, Struct):
+                                    damage(x)
+                            v.values[:] = [0]
+                        elif isinstance(v, Struct):
+                            damage(v)
+                            v.attributes["mutated"] = 1
+                damage(p)
                 p.attributes["mutated"] = 1
                 p.name = "Mutated"
         if how == "clear":
